@@ -58,3 +58,37 @@ pub fn run(opts: &Opts) {
     let _ = std::fs::remove_dir_all(&base);
     println!("selftest ok");
 }
+
+/// `vh-node selftest pool`: node with tx-pool service: submit, template, mine, commit.
+pub fn run_pool(opts: &Opts) {
+    use ckb_types::prelude::*;
+    let base = scratch_dir(&opts.out, "selftest-pool");
+    let cfg = NodeCfg { epoch_len: 6, window: (2, 4), with_pool: true, ..Default::default() };
+    let consensus = make_consensus(&cfg);
+    let node = Node::start(&base.join("node"), consensus.clone(), &cfg);
+    let cells = genesis_cells(&consensus);
+    let tpc = node.shared.tx_pool_controller().clone();
+    let tx1 = spend_tx(&cells[0..1], 2, 1000, 1);
+    let r = tpc.submit_local_tx(tx1.clone());
+    println!("submit tx1 -> {:?}", r.map(|r| r.map_err(|e| e.to_string())));
+    let tx2 = spend_tx(&[(ckb_types::packed::OutPoint::new(tx1.hash(), 0), { let c: ckb_types::core::Capacity = tx1.outputs().get(0).unwrap().capacity().unpack(); c.as_u64() })], 1, 500, 2);
+    let r = tpc.submit_local_tx(tx2.clone());
+    println!("submit tx2 -> {:?}", r.map(|r| r.map_err(|e| e.to_string())));
+    for i in 0..8 {
+        let tmpl = tpc.get_block_template(None, None, None).unwrap().unwrap();
+        let block: ckb_types::packed::Block = tmpl.clone().into();
+        let block = block.into_view();
+        let r = node.process(&block);
+        let info = tpc.get_tx_pool_info().unwrap();
+        println!(
+            "mine {} txs={} proposals={} -> {:?}; pool pending={} proposed={}",
+            block.number(), block.transactions().len(), block.data().proposals().len(), r, info.pending_size, info.proposed_size
+        );
+        assert_eq!(r, Ok(true), "template {i} rejected");
+        std::thread::sleep(std::time::Duration::from_millis(50));
+    }
+    println!("tx2 committed: {}", node.store().get_transaction_info(&tx2.hash()).is_some());
+    let _ = std::fs::remove_dir_all(&base);
+    println!("selftest pool ok");
+    std::process::exit(0);
+}
